@@ -302,6 +302,17 @@ class Model:
                     f_.node = node_
             self._inline_new_helpers(new_helpers)
         # idioms and small constant tables (sa/idioms.py), then calls through locals bound to (a choice of) bound methods
+        from . import loopnorm as _ln
+        _model = self
+
+        def _nonzero_attr(attr: str, _memo: dict = {}) -> bool:
+            if attr not in _memo:
+                from .valueset import value_set
+                any_f = next(iter(_model.functions.values()))
+                vs = value_set(_model, any_f, ast.Attribute(value=ast.Name(id="self", ctx=ast.Load()), attr=attr, ctx=ast.Load()))
+                _memo[attr] = vs is not None and len(vs) > 0 and 0 not in vs
+            return _memo[attr]
+        _ln.NONZERO_ATTR = _nonzero_attr
         from .idioms import canonicalise
         self.canonicalised = [q for q, f in self.functions.items() if canonicalise(self, f)]
         for f in self.functions.values():
@@ -1095,10 +1106,10 @@ class Model:
         elif isinstance(st, ast.Assign):
             for t in st.targets:
                 if isinstance(t, ast.Name):
-                    m.assigns[t.id] = st.value
+                    m.assigns[t.id] = _dict_literal(st.value)
         elif isinstance(st, ast.AnnAssign) and isinstance(st.target, ast.Name):
             if st.value is not None:
-                m.assigns[st.target.id] = st.value
+                m.assigns[st.target.id] = _dict_literal(st.value)
         elif isinstance(st, ast.If):
             # ``if TYPE_CHECKING:`` blocks only hold imports (already walked)
             for b in st.body + st.orelse:
@@ -1302,6 +1313,34 @@ class Model:
 
 
 # ---------------------------------------------------------------- ast helpers
+def _dict_literal(v: ast.expr) -> ast.expr:
+    """`dict(enumerate([A, B, C]))` / `dict(enumerate([..], K))` / `dict(zip([k..], [v..]))` with literal sequences is the dict display
+    `{0: A, 1: B, 2: C}`: module-level dispatch tables are read as displays whichever way they are spelled."""
+    if not (isinstance(v, ast.Call) and isinstance(v.func, ast.Name) and v.func.id == "dict" and len(v.args) == 1 and not v.keywords):
+        return v
+    a = v.args[0]
+    if isinstance(a, ast.Call) and isinstance(a.func, ast.Name) and a.func.id == "enumerate" and 1 <= len(a.args) <= 2 \
+            and isinstance(a.args[0], (ast.List, ast.Tuple)) and not any(isinstance(x, ast.Starred) for x in a.args[0].elts):
+        start = 0
+        if len(a.args) == 2:
+            if not (isinstance(a.args[1], ast.Constant) and isinstance(a.args[1].value, int)):
+                return v
+            start = a.args[1].value
+        for kw in a.keywords:
+            if kw.arg == "start" and isinstance(kw.value, ast.Constant) and isinstance(kw.value.value, int):
+                start = kw.value.value
+            else:
+                return v
+        elts = a.args[0].elts
+        return ast.copy_location(ast.Dict(keys=[ast.Constant(value=start + i) for i in range(len(elts))], values=list(elts)), v)
+    if isinstance(a, ast.Call) and isinstance(a.func, ast.Name) and a.func.id == "zip" and len(a.args) == 2 and not a.keywords \
+            and all(isinstance(x, (ast.List, ast.Tuple)) and not any(isinstance(y, ast.Starred) for y in x.elts) for x in a.args) \
+            and len(a.args[0].elts) == len(a.args[1].elts) and all(isinstance(k, ast.Constant) for k in a.args[0].elts) \
+            and len({k.value for k in a.args[0].elts}) == len(a.args[0].elts):
+        return ast.copy_location(ast.Dict(keys=list(a.args[0].elts), values=list(a.args[1].elts)), v)
+    return v
+
+
 def walk_no_nested(node: ast.AST) -> Iterable[ast.AST]:
     """ast.walk that does not descend into nested function/class/lambda bodies."""
     stack = list(ast.iter_child_nodes(node))
